@@ -161,6 +161,32 @@ def validate(ctx, scens, label, chunk=80):
     return accepted, rejected
 
 
+def judge(ctx, scens):
+    """The property by itself (Trace_ShutdownProp.tla) judges the given scenario logs.  Returns, per scenario, the list of
+    findings [{at, why}] (empty = the property holds on this log)."""
+    recs, spans = prep(scens)
+    path = os.path.join(vlib.workdir("C20"), "judge-%d-%d.ndjson" % (os.getpid(), threading.get_ident() % 100000))
+    vlib.write_lines(path, recs)
+    try:
+        r = run_tlc("Trace_ShutdownProp.tla", "Trace_ShutdownProp.cfg", D, workers=1, env={"TRACE": path},
+                    work_id="c20j", timeout=600, heap="3g")
+    finally:
+        os.remove(path)
+    ctx.add_tlc("property judge on %d scenario(s) the code model did not explain" % len(scens), r)
+    acc, bad = set(), {}
+    for line in r.raw_prints:
+        m = re.match(r'<<"ACC", (\d+)>>', line)
+        if m:
+            acc.add(int(m.group(1)) - 1)
+    for p in r.prints:
+        if isinstance(p, dict) and "judge" in p:
+            k = p["judge"] - 1
+            bad[k] = [{"at": b["at"] - spans[k][0], "why": b["why"]} for b in p["bad"]]
+    if r.violation is not None or len(acc) + len(bad) != len(scens):
+        raise vlib.ToolError("property judge gave no verdict for every scenario:\n" + r.out[-1500:])
+    return [bad.get(k, []) for k in range(len(scens))]
+
+
 MAX_HANGS = 3
 
 
@@ -174,6 +200,9 @@ def run_harness(path, args, stdin_data=None, timeout=1500):
         got = parse_jsonl(p.stdout)
         outs += got
         if p.returncode == 0:
+            return outs
+        if p.returncode == 4 and got:
+            vlib.log("[C20] %s: three scenarios waited out the full escalation, the rest of the group is skipped" % args[0])
             return outs
         if p.returncode == 3 and got:
             hangs += 1
@@ -214,21 +243,30 @@ def run(tier, replay):
         ctx.cov["rule"] = "re-execution of the scenario stored in the replay file"
         for o in outs:
             ctx.sample({"scenario": o["scenario"], "verdict": o["verdict"], "log": brief(o["events"])[:900]})
-        for o, info in rej:
-            ctx.violation("replayed scenario %s rejected by TLC at record %s %s" % (o["scenario"], info.get("record_in_scenario"), json.dumps(info.get("event") or info.get("invariant"))),
-                          {"kind": "c20-trace", "scenario": {k: o[k] for k in o if k != "events"}, "events": o["events"], "tlc": info})
+        sus = [o for o, _ in rej] + [o for o in outs if o.get("hang") and o not in [x for x, _ in rej]]
+        if sus:
+            for o, bad in zip(sus, judge(ctx, sus)):
+                obj = {"kind": "c20-trace", "scenario": {k: o[k] for k in o if k != "events"}, "events": o["events"], "property_judge": bad}
+                if bad:
+                    ctx.violation("replayed scenario %s: %s (record %s)" % (o["scenario"], bad[0]["why"], bad[0]["at"]), obj)
+                else:
+                    ctx.drift("code model of run", "replayed scenario %s satisfies the property but not the code model" % o["scenario"], obj)
         return ctx.finish()
 
     # ---------------------------------------------------------------- 1. TLC jobs run beside the harness work
     pool = cf.ThreadPoolExecutor(max_workers=3)
     jobs = {}
     mc_cfgs = [("MC_Shutdown_thorough.cfg" if thorough else "MC_Shutdown_quick.cfg", "accept loop/run thread fair only", 8 if thorough else 4)]
+    # the signal sent a second time (Sig_Again) nearly doubles the state space: checked on smaller configurations
+    mc_cfgs.append(("MC_Shutdown_twice2.cfg" if thorough else "MC_Shutdown_twice.cfg", "accept loop/run thread fair only, signal possibly sent twice", 2))
     mc_cfgs.append(("MC_Shutdown_allfair_thorough.cfg" if thorough else "MC_Shutdown_allfair.cfg", "every process fair: drain after return", 2))
     for cfg, note, w in mc_cfgs:
         jobs[("mc", cfg, note)] = pool.submit(tlc_job, "MC_Shutdown.tla", cfg, D, workers=w, coverage=True,
                                               timeout=2400, work_id="c20mc", heap="8g" if thorough else "4g",
                                               extra=["-lncheck", "final"])
     for cfg, dev, kind, name in SENS:
+        if dev == "BoundedQueueCap" and not thorough:
+            continue   # 3 clients: tens of seconds
         jobs[("sens", cfg, dev)] = pool.submit(tlc_job, "MC_Shutdown.tla", cfg, D, workers=1, timeout=900, work_id="c20s")
     for w in WITNESS:
         if w == "Never_ReturnedDeepQueue" and not thorough:
@@ -259,7 +297,7 @@ def run(tier, replay):
         nmat = 60 if thorough else 12
         fut = {}
         for rt in bins:
-            fut[("races", rt)] = hp.submit(run_harness, bins[rt], ["races"])
+            fut[("races", rt)] = hp.submit(run_harness, bins[rt], ["races", tier])
         for rt in bins:
             groups[("races", rt)] = fut[("races", rt)].result()
         fut = {}
@@ -269,7 +307,7 @@ def run(tier, replay):
             groups[("matrix", rt)] = fut[("matrix", rt)].result()
 
     n_replayed = sum(len(v) for k, v in groups.items() if k[0] == "replay")
-    any_hang = any(o.get("hang") for v in groups.values() for o in v)
+    any_hang = any(o.get("hang") or o["verdict"].get("wait_level", 0) >= 3 for v in groups.values() for o in v)
     if n_replayed != len(beh) and not any_hang:
         raise vlib.ToolError("harnesses replayed %d of %d behaviours" % (n_replayed, len(beh)))
 
@@ -299,23 +337,37 @@ def run(tier, replay):
         # non-trivial: at least one connection existed when the signal was sent
         if "Sig_Send" in evs and any(e in evs[:evs.index("Sig_Send")] for e in ("Accept_Return", "Cli_Connect")):
             nontrivial.add(json.dumps([o["rt"], o["nw"], o["bind"], o["steps"]], sort_keys=True))
-        if o.get("hang"):
-            # method D: a step the model says is enabled (or a service the scenario was built to get) did not
-            # happen within 1 s + 4 s + 15 s
-            ctx.violation("%s scenario %s: the real code did not move where the model says it can: %s"
-                          % (o["group"], o["scenario"], o.get("problems")),
-                          {"kind": "c20-hang", "scenario": {k: o[k] for k in o if k != "events"}, "events": o["events"], "log": brief(o["events"])})
-        if o["group"].startswith("replay"):
-            for p in o.get("problems", []):
-                if p.startswith("gated step expected"):
-                    ctx.violation("replay of a TLC behaviour: %s (%s)" % (p, o["scenario"]),
-                                  {"kind": "c20-gated-replay", "scenario": {k: o[k] for k in o if k != "events"}, "log": brief(o["events"])})
+    # ---- two-level judging (false-alarm rule): Shutdown.tla models THIS implementation of run (flag, wake-up connection,
+    # order of the accept loop's steps, pool stop).  A scenario the code model cannot explain, a gated step that came out
+    # differently and a step that did not happen are re-examined by the property itself (Trace_ShutdownProp.tla: run returns,
+    # port free at once, serving until the signal, no truncated / missing response to a request received before the signal).
+    # Only what the property forbids is a VIOLATION; everything else is reported as SPEC-DRIFT and does not gate.
+    suspects = {}
     for o, info in rej_all:
-        what = ("%s scenario %s: the recorded execution is not a behaviour of Shutdown.tla - TLC stops at record %s %s; "
-                "verdict fields of the harness: %s; problems: %s"
-                % (o["group"], o["scenario"], info.get("record_in_scenario"), json.dumps(info.get("event") or info.get("invariant")),
-                   json.dumps(o["verdict"]), o.get("problems")))
-        ctx.violation(what, {"kind": "c20-trace", "scenario": {k: o[k] for k in o if k != "events"}, "events": o["events"], "tlc": info})
+        suspects[id(o)] = (o, ["the code model cannot explain the log: TLC stops at record %s %s"
+                               % (info.get("record_in_scenario"), json.dumps(info.get("event") or info.get("invariant") or "not explained within the time bound"))], info)
+    for o in everything:
+        why = []
+        if o.get("hang"):
+            why.append("a step the code model says is enabled did not happen within 1 s + 4 s + 15 s: %s" % o.get("problems"))
+        why += ["gated replay of a TLC behaviour: " + p for p in o.get("problems", []) if p.startswith("gated step expected")]
+        if why:
+            if id(o) in suspects:
+                suspects[id(o)][1].extend(why)
+            else:
+                suspects[id(o)] = (o, why, {})
+    if suspects:
+        sus = [v[0] for v in suspects.values()]
+        verdicts = judge(ctx, sus)
+        for (o, why, info), bad in zip(suspects.values(), verdicts):
+            obj = {"kind": "c20-trace", "scenario": {k: o[k] for k in o if k != "events"}, "events": o["events"],
+                   "code_model": why, "tlc": info, "property_judge": bad}
+            if bad:
+                ctx.violation("%s scenario %s: %s (record %s of the log); harness verdict fields %s; code model: %s"
+                              % (o["group"], o["scenario"], bad[0]["why"], bad[0]["at"], json.dumps(o["verdict"]), "; ".join(why)[:400]), obj)
+            else:
+                ctx.drift("code model of run", "%s scenario %s satisfies the property but not Shutdown.tla's model of this implementation: %s"
+                          % (o["group"], o["scenario"], "; ".join(why)[:500]), obj)
     for (kind, rt), outs in sorted(groups.items()):
         ctx.add_part("%s %s" % (kind, rt), scenarios=len(outs),
                      rejected_by_tlc=sum(1 for o, _ in rej_all if o["group"] == "%s/%s" % (kind, rt)),
@@ -355,7 +407,29 @@ def run(tier, replay):
             if acc1:
                 raise vlib.ToolError("self-test failed: corrupted log accepted (%s)" % name)
             caught += 1
-    ctx.add_part("self-test", corrupted_logs=len(muts), rejected=caught)
+    # the property judge separates what the statement forbids from what merely differs from today's code
+    base2 = by_name("races", "threaded", "inflight-at-signal-0")
+    jres = None
+    if muts and base2 is not None:
+        def first_resp(ev, c):
+            return next(i for i, e in enumerate(ev) if e["ev"] == "Cli_Resp" and e["c"] == c)
+        jm = [
+            ("implementation only: Flag_Read value flipped", False, muts[0][1]),
+            ("implementation only: Dispatch record dropped", False, muts[1][1]),
+            ("run did not return", True, mutate(base2, lambda ev: [e for e in ev if e["ev"] not in ("Run_Return", "Rebind", "Obs_Closed")])),
+            ("re-bind failed", True, mutate(base2, lambda ev: [dict(e, v=0) if e["ev"] == "Rebind" else e for e in ev])),
+            ("response to a request whose handler ran before the signal truncated", True,
+             mutate(base2, lambda ev: [dict(e, ev="Cli_Eof", v=1) if i == first_resp(ev, 1) else e for i, e in enumerate(ev)])),
+            ("response to such a request missing", True,
+             mutate(base2, lambda ev: [dict(e, ev="Cli_Timeout", v=0) if i == first_resp(ev, 4) else e for i, e in enumerate(ev)])),
+            ("unchanged log", False, base2),
+        ]
+        verdicts = judge(ctx, [m for _, _, m in jm])
+        for (name, want, _), bad in zip(jm, verdicts):
+            if bool(bad) != want:
+                raise vlib.ToolError("self-test of the property judge failed: %s -> %s" % (name, bad))
+        jres = len(jm)
+    ctx.add_part("self-test", corrupted_logs=len(muts), rejected=caught, property_judge_cases=jres)
 
     # ---------------------------------------------------------------- collect the TLC jobs
     for (kind, cfg, x), f in jobs.items():
@@ -364,7 +438,7 @@ def run(tier, replay):
             ctx.add_tlc("Shutdown.tla Dev={} %s (%s)" % (cfg, x), r)
             ctx.require_tlc_ok(cfg, r)
             if r.violation is None and "allfair" not in cfg:
-                ctx.require_cover(cfg, r, ACTIONS)
+                ctx.require_cover(cfg, r, [a for a in ACTIONS if (a != "Sig_Again" or "twice" in cfg) and not ("twice" in cfg and a == "Worker_Disc")])
         elif kind == "sens":
             want = next(s for s in SENS if s[0] == cfg)
             ctx.add_tlc("sensitivity: Dev={%s} must violate %s" % (x, want[3] or "Live_RunReturns"), r)
